@@ -11,14 +11,52 @@ package simsync
 
 import (
 	"fmt"
+	"sort"
 	"sync"
 )
 
-// Locker, Pool and Cond are passed through unchanged.
-type (
-	Locker = sync.Locker
-	Pool   = sync.Pool
-)
+// Locker is passed through unchanged.
+type Locker = sync.Locker
+
+// Pool replaces sync.Pool: a last-in-first-out free list with a scheduling point before every Get and
+// Put. (sync.Pool may drop items at any time; one that never does is a legal behaviour, and the one
+// under which an object that was put back twice is handed out twice.)
+type Pool struct {
+	New   func() any
+	items []any
+}
+
+func (p *Pool) enter(label string) func() {
+	if s := cur(); s != nil {
+		s.yield(label)
+		return func() {}
+	}
+	direct.Lock()
+	return direct.Unlock
+}
+
+// Get takes the most recently returned object, or calls New.
+func (p *Pool) Get() any {
+	defer p.enter("pool.Get")()
+	if n := len(p.items); n > 0 {
+		x := p.items[n-1]
+		p.items = p.items[:n-1]
+		return x
+	}
+	if p.New != nil {
+		return p.New()
+	}
+	return nil
+}
+
+// Put returns an object to the free list.
+func (p *Pool) Put(x any) {
+	if x == nil {
+		return
+	}
+	defer p.enter("pool.Put")()
+	p.items = append(p.items, x)
+}
 
 type evKind int
 
@@ -134,6 +172,7 @@ func RunWith(clients []func(), choose func(runnable []int) int, onStart func(*Sc
 		s.current = gid
 		s.Steps = append(s.Steps, Step{Gid: gid, Label: s.parked[gid]})
 		s.stepCount++
+		clockTick()
 		s.mu.Unlock()
 
 		s.gates[gid] <- struct{}{}
@@ -254,13 +293,28 @@ func (m *Map) Load(key any) (value any, ok bool) {
 	return
 }
 
+// published is a scheduling point right AFTER an operation that made something visible to other
+// goroutines: the publisher may lose the processor before its next instruction, whatever that is
+// (also where the code goes on with operations the simulator does not see: channels, plain memory).
+func published(label string) {
+	if s := cur(); s != nil {
+		s.yield(label)
+	}
+}
+
 func (m *Map) Store(key, value any) {
+	defer published("after map.Store")
 	defer m.enter("map.Store")()
 	m.init()
 	m.m[key] = value
 }
 
 func (m *Map) LoadOrStore(key, value any) (actual any, loaded bool) {
+	defer func() {
+		if !loaded {
+			published("after map.LoadOrStore")
+		}
+	}()
 	defer m.enter("map.LoadOrStore")()
 	m.init()
 	if v, ok := m.m[key]; ok {
@@ -327,6 +381,8 @@ func (m *Map) Range(f func(key, value any) bool) {
 		for k, v := range m.m {
 			snap = append(snap, kv{k, v})
 		}
+		// (a fixed order: the iteration order of the real sync.Map is unspecified, and the schedule must replay)
+		sort.Slice(snap, func(a, b int) bool { return fmt.Sprint(snap[a].k) < fmt.Sprint(snap[b].k) })
 	}()
 	for _, e := range snap {
 		if s := cur(); s != nil {
